@@ -218,7 +218,7 @@ class Prov:
             if k == "field":
                 t = mk_field(t, e["name"])
             elif k == "downcast":
-                t = mk_variant(t, e["name"])
+                t = mk_variant(t, e["name"], e.get("adt"))
             elif k == "index":
                 t = ("index", t, self.local_term(e["l"]))
             elif k == "constindex":
@@ -249,7 +249,7 @@ class Prov:
             return ("unop", rv["op"], self.operand_term(rv["a"]))
         if k == "discriminant":
             vs = tuple((v["discr"], v["name"]) for v in rv.get("variants", []))
-            return ("discr", self.place_term(rv["p"]), vs)
+            return ("discr", self.place_term(rv["p"]), vs, rv.get("adt"))
         if k == "aggregate":
             ak = rv["ak"]
             ops = [self.operand_term(o) for o in rv["ops"]]
@@ -340,18 +340,31 @@ def mk_field(t, name):
         for n, v in t[2]:
             if n == name:
                 return v
-    if t[0] == "variant" and name == "0":
+    if t[0] == "variant" and name == "0" and len(t) == 4:
         if t[2] in OK_VARIANTS:
             return mk_ok(t[1])
         if t[2] in ERR_VARIANTS:
-            return ("err", strip_ok_preserving(t[1]))
+            return ("err", strip_branch(t[1]))
     return ("field", t, name)
 
 
-def mk_variant(t, name):
+STD_SUM_TYPES = {"core::option::Option", "core::result::Result", "core::ops::control_flow::ControlFlow", "core::task::poll::Poll"}
+
+
+def mk_variant(t, name, adt=None):
     if t[0] == "agg" and isinstance(t[1], tuple) and t[1][0] == "adt":
         return t  # downcast of a known aggregate
+    if adt in STD_SUM_TYPES:
+        # marked so that mk_field can normalise Ok/Some/Continue/Ready payloads
+        return ("variant", t, name, "std")
     return ("variant", t, name)
+
+
+def strip_branch(t):
+    """The error payload is preserved only by `?` itself (map_err / context transform it)."""
+    while t[0] == "call" and t[1] == "core::ops::try_trait::Try::branch" and t[3]:
+        t = t[3][0]
+    return t
 
 
 def strip_ok_preserving(t):
